@@ -1,1 +1,116 @@
+(* C12 - ThreadsafeForwardingResult: per-test atomicity under every interleaving.  PARTIAL: every
+   interleaving at the granularity of operations on the shared objects (semaphore.acquire/release,
+   each method of the target); preemption inside the bytecode between two such operations is not
+   in the model.  Only statements; every proof is `exact <lemma of Proof/C12.v>`.
+
+   Throughout: l = per thread (script of calls on its own forwarder, which of its target calls
+   raise); sched = any list of thread numbers; step' c t = thread t performs its pending operation
+   on a shared object if it can (no-op when blocked or finished). *)
 From TT Require Import Lib.Base Model.Tfr Spec.C12 Corr.C12 Proof.C12.
+
+(* The model meets the whole statement for every number of threads, every script, every fault plan
+   and every schedule given to the harness scheduler (which then runs the threads to their end). *)
+Theorem C12_holds : forall i : input, spec_okb i (model i) = true.
+Proof. exact model_meets_spec. Qed.
+Print Assumptions C12_holds.
+
+(* ... and the executable statement implies the readable one (Spec.C12.Spec): no deadlock, semaphore
+   free at the end, the log is a concatenation of single-owner sections acquire, calls, release, and
+   the part of every well-formed thread is exactly the expected sequence of its blocks. *)
+Theorem C12_statement : forall i o, spec_okb i o = true -> Spec i o.
+Proof. exact spec_okb_sound. Qed.
+Print Assumptions C12_statement.
+
+(* mutual exclusion: after ANY schedule, thread t holds the semaphore iff its next operation is a
+   target call or the release; at most one thread is in that position *)
+Theorem C12_mutex : forall l sched,
+  let c := fold_left step' sched (init l) in
+  (forall t th, nth_error (ths c) t = Some th -> (sem c = Some t <-> in_block th = true))
+  /\ (forall t u tht thu, nth_error (ths c) t = Some tht -> nth_error (ths c) u = Some thu ->
+        in_block tht = true -> in_block thu = true -> t = u).
+Proof. exact mutex_all_schedules. Qed.
+Print Assumptions C12_mutex.
+
+(* blocks: after ANY schedule the log of the shared objects is a concatenation of complete sections
+   (acquire by t, target calls by t only, release by t), followed - iff somebody holds the semaphore -
+   by that thread's open section; and each thread's own part of the log (completed by what it has
+   still to do) is a sequence of sections each of which has the shape of a block: a guarded call, or
+   time startTest time tags{0..2} outcome stopTest, cut short only at a raising call of the prefix
+   (nothing follows) - stopTest still follows a raising outcome.  For every script, well-formed or not. *)
+Theorem C12_blocks : forall l sched,
+  let c := fold_left step' sched (init l) in
+  (exists secs tail, glog c = flat_map render secs ++ tail
+                     /\ Forall (sec_ok (length l)) secs /\ open_tail (length l) (sem c) tail)
+  /\ (forall t sc fl, nth_error l t = Some (sc, fl) ->
+        exists rest bodies, proj t (glog c) ++ rest = flat_map section bodies /\ Forall block_shape bodies).
+Proof. exact blocks_all_schedules. Qed.
+Print Assumptions C12_blocks.
+
+(* per thread: after ANY schedule the part of the log made by a thread that reports well-formed tests
+   is a prefix of the expected log of that thread alone (its tests in its order, each with its own
+   start time, the run-level and its own tags, its outcome, cut by its own faults) - the whole of it
+   once the thread has finished.  The schedule and the other threads have no influence on it. *)
+Theorem C12_per_thread : forall l sched t sc fl,
+  nth_error l t = Some (sc, fl) -> wf_script Out sc = true ->
+  let c := fold_left step' sched (init l) in
+  exists rest, proj t (glog c) ++ rest = expected fl sc sst0 0
+               /\ (forall th, nth_error (ths c) t = Some th -> finished th = true -> rest = []).
+Proof. exact per_thread_all_schedules. Qed.
+Print Assumptions C12_per_thread.
+
+(* ... and, without faults, that expected log contains every outcome of the script exactly once, in order *)
+Theorem C12_outcomes_once : forall sc k,
+  wf_script Out sc = true -> outcomes_of_log (expected [] sc sst0 k) = outcomes_of_script sc.
+Proof. exact (fun sc k H => expected_outcomes_once sc Out sst0 k H I). Qed.
+Print Assumptions C12_outcomes_once.
+
+(* release: after ANY schedule, if no thread is inside a block (all are between forwarder calls, whether
+   the calls returned or raised) the semaphore is free *)
+Theorem C12_release : forall l sched,
+  let c := fold_left step' sched (init l) in
+  (forall t th, nth_error (ths c) t = Some th -> in_block th = false) -> sem c = None.
+Proof. exact release_all_schedules. Qed.
+Print Assumptions C12_release.
+
+(* no deadlock: after ANY schedule, if some thread is unfinished some thread can move; every move
+   decreases a natural-number measure, so every scheduler that picks an enabled thread terminates *)
+Theorem C12_no_deadlock : forall l sched,
+  let c := fold_left step' sched (init l) in
+  (exists t th, nth_error (ths c) t = Some th /\ finished th = false) -> exists t, step c t <> None.
+Proof. exact no_deadlock_all_schedules. Qed.
+Print Assumptions C12_no_deadlock.
+
+Theorem C12_progress : forall c t c', step c t = Some c' -> cmeasure c' < cmeasure c.
+Proof. exact step_measure. Qed.
+Print Assumptions C12_progress.
+
+(* the run of the harness scheduler is one of the schedules, ends with every thread finished and
+   the semaphore free *)
+Theorem C12_terminates : forall l sched,
+  all_finished (run l sched) = true /\ sem (run l sched) = None
+  /\ exists s, run l sched = fold_left step' s (init l).
+Proof. exact run_terminates. Qed.
+Print Assumptions C12_terminates.
+
+(* the correspondence compares observations exactly *)
+Theorem C12_obs_eqb : forall a b, obs_eqb a b = true <-> a = b.
+Proof. exact obs_eqb_spec. Qed.
+Print Assumptions C12_obs_eqb.
+
+(* non-vacuity: two threads, tags, a fault in thread 0's tags call (call number 3) under a schedule
+   that switches in the middle of thread 0's first block: thread 1 cannot get in *)
+Example C12_example :
+  let l := [([RTime (Some 1); RStartTest 1; RTags [5; 4] [2]; RTime (Some 2); ROutcome KError 1; RStopTest 1;
+              RStartTest 2; ROutcome KSuccess 2; RStopTest 2], [3]);
+            ([RStartTest 7; ROutcome KSkip 7; RStopTest 7; RGuard GStop], [4])] in
+  let o := model {| threads := l; sched := [0; 0; 1; 1; 0; 1; 1; 1; 1] |} in
+  firstn 8 (o_log o) =
+    [(0, EAcq); (0, ECall (TTime (TvAt 1)) false); (0, ECall (TStartTest 1) false); (0, ECall (TTime (TvAt 2)) false);
+     (0, ECall (TTags ([4; 5], [2])) true); (0, ERel); (1, EAcq); (1, ECall (TTime TvWall) false)]
+  /\ proj 1 (o_log o) =
+       section [ECall (TTime TvWall) false; ECall (TStartTest 7) false; ECall (TTime TvWall) false;
+                ECall (TOutcome KSkip 7) false; ECall (TStopTest 7) true]
+       ++ section [ECall (TGuard GStop) false]
+  /\ o_sem_free o = true /\ o_deadlock o = false
+  /\ wf_script Out (fst (nth 0 l ([], []))) = true.
+Proof. vm_compute. repeat split. Qed.
